@@ -531,7 +531,12 @@ func (r *rewriter) atomicMethod(call *ast.CallExpr, se *ast.SelectorExpr, s *typ
 		rt = pt.Elem()
 	}
 	named, isNamed := rt.(*types.Named)
-	if !isNamed || named.Obj().Pkg() == nil || named.Obj().Pkg().Path() != "sync/atomic" {
+	if !isNamed || named.Obj().Pkg() == nil {
+		return false
+	}
+	// sync/atomic types, and sync.Map: every operation on them is a scheduling point (a check-
+	// then-act over two sync.Map operations is exactly what an interleaving has to be able to split)
+	if pp := named.Obj().Pkg().Path(); pp != "sync/atomic" && !(pp == "sync" && named.Obj().Name() == "Map") {
 		return false
 	}
 	var obj ast.Expr = se.X
